@@ -56,6 +56,14 @@ Comps == <<
   Comp("arr-items-conflict", << SArr(SInt), SArr(SStr) >>, << >>),
   Comp("uint8-and-int32", << [type |-> "integer", format |-> "uint8"], [type |-> "integer", format |-> "int32"] >>, << >>),
   Comp("nonzero-enum-with-zero", << [type |-> "number", minimum |-> JInt(1)], [type |-> "integer", enum |-> <<JInt(0), JInt(7), JInt(300)>>] >>, << >>),
+  (* tuple-form items without a length bound: incompatible positions truncate the merged tuple,
+     which stays satisfiable while minItems does not exceed the truncation point *)
+  Comp("open-tuples-conflict-at-min", << [type |-> "array", itemsList |-> <<SInt, SInt, SInt>>, minItems |-> 2],
+                                         [type |-> "array", itemsList |-> <<SInt, SInt, SStr>>] >>, << >>),
+  Comp("open-tuples-conflict-below-min", << [type |-> "array", itemsList |-> <<SInt, SInt, SInt>>, minItems |-> 3],
+                                            [type |-> "array", itemsList |-> <<SInt, SInt, SStr>>] >>, << >>),
+  Comp("open-tuple-vs-items", << [type |-> "array", itemsList |-> <<SInt, SStr>>], SArr(SInt) >>, << >>),
+  Comp("open-tuple-vs-items-min2", << [type |-> "array", itemsList |-> <<SInt, SStr>>, minItems |-> 2], SArr(SInt) >>, << >>),
   Comp("unsat-types", << SStr, SInt >>, << >>),
   Comp("unsat-enums", << EnumS(<<JS(<<"a">>)>>), EnumS(<<JS(<<"b">>)>>) >>, << >>),
   Comp("unsat-required-false", << SObj(Props1("a", SFalse), {}), SObj(Props1("a", SInt), {"a"}) >>, << >>),
